@@ -6,6 +6,7 @@ import (
 
 	"github.com/cronokirby/saferith"
 	"github.com/fxamacker/cbor/v2"
+	"github.com/taurusgroup/multi-party-sig/internal/safecbor"
 	"github.com/taurusgroup/multi-party-sig/internal/types"
 	"github.com/taurusgroup/multi-party-sig/pkg/math/curve"
 	"github.com/taurusgroup/multi-party-sig/pkg/paillier"
@@ -70,6 +71,19 @@ func (c *Config) MarshalBinary() ([]byte, error) {
 	})
 }
 
+// UnmarshalCBOR restores a config stored with cbor.Marshal (a byte string holding the MarshalBinary encoding).
+// Without it a CBOR null would decode "successfully" and leave the config empty.
+func (c *Config) UnmarshalCBOR(data []byte) error {
+	var binary []byte
+	if err := cbor.Unmarshal(data, &binary); err != nil {
+		return fmt.Errorf("config: %w", err)
+	}
+	if binary == nil {
+		return errors.New("config: no config in data")
+	}
+	return c.UnmarshalBinary(binary)
+}
+
 func (c *Config) UnmarshalBinary(data []byte) error {
 	if c.Group == nil {
 		return errors.New("config must be initialized using EmptyConfig")
@@ -78,8 +92,23 @@ func (c *Config) UnmarshalBinary(data []byte) error {
 		ECDSA:   c.Group.NewScalar(),
 		ElGamal: c.Group.NewScalar(),
 	}
-	if err := cbor.Unmarshal(data, &cm); err != nil {
+	if err := safecbor.Unmarshal(data, cm); err != nil {
 		return fmt.Errorf("config: %w", err)
+	}
+	if cm.ID == "" {
+		return errors.New("config: ID is empty")
+	}
+	if cm.ECDSA == nil || cm.ElGamal == nil {
+		return errors.New("config: ECDSA or ElGamal secret key is missing")
+	}
+	if err := cm.RID.Validate(); err != nil {
+		return fmt.Errorf("config: %w", err)
+	}
+	// a config may come without a chain key, but not with a malformed one
+	if len(cm.ChainKey) != 0 {
+		if err := cm.ChainKey.Validate(); err != nil {
+			return fmt.Errorf("config: chain key: %w", err)
+		}
 	}
 
 	// check ECDSA, ElGamal
@@ -103,8 +132,11 @@ func (c *Config) UnmarshalBinary(data []byte) error {
 			ECDSA:   c.Group.NewPoint(),
 			ElGamal: c.Group.NewPoint(),
 		}
-		if err := cbor.Unmarshal(pm, p); err != nil {
+		if err := safecbor.Unmarshal(pm, p); err != nil {
 			return fmt.Errorf("config: party %s: %w", p.ID, err)
+		}
+		if p.ID == "" {
+			return errors.New("config: party with empty ID")
 		}
 		if _, ok := ps[p.ID]; ok {
 			return fmt.Errorf("config: party %s: duplicate entry", p.ID)
@@ -112,6 +144,9 @@ func (c *Config) UnmarshalBinary(data []byte) error {
 
 		// handle our own key separately
 		if p.ID == cm.ID {
+			if err := pedersen.ValidateParameters(paillierSecret.Modulus().Modulus, p.S, p.T); err != nil {
+				return fmt.Errorf("config: party %s: %w", p.ID, err)
+			}
 			ps[p.ID] = &Public{
 				ECDSA:    cm.ECDSA.ActOnBase(),
 				ElGamal:  cm.ElGamal.ActOnBase(),
